@@ -128,10 +128,23 @@ def run(tier: str) -> Run:
     for fq, fi in sorted(eff.funcs.items()):
         if fq in seen or not fi.module.startswith(TARGET_PREFIXES) or not is_public(fi):
             continue
-        g = sorted(t for t in eff.summaries[fq].ret.cont if t.startswith('g:'))
+        rs = eff.summaries[fq].ret
+        g = sorted(t for t in rs.cont if t.startswith('g:'))
         ret_ann = ast.unparse(fi.node.returns).strip('\'"') if fi.node.returns is not None else ''
         if g and ret_ann not in ('str', 'int', 'float', 'bool', 'bytes', 'None'):
             r2.fail(fq, loc(fi), {'returns_container': g}, key=fq)
+            continue
+        # one level down: a fresh record or list whose fields / elements are objects stored by a memoising wrapper
+        memo = {}
+        for k, v in (rs.fields or ()):
+            c = sorted(t for t in v.cont if t.startswith('g:') and t.endswith('#cache'))
+            if c:
+                memo[k] = c
+        ce = sorted(t.rstrip('[]') for t in rs.elem if t.startswith('g:') and t.rstrip('[]').endswith('#cache') and not t.endswith('[]'))
+        if ce:
+            memo['<elements>'] = ce
+        if memo and ret_ann not in ('str', 'int', 'float', 'bool', 'bytes', 'None'):
+            r2.fail(fq, loc(fi), {'fields_holding_memoised_objects': memo}, key=fq + ':memo-field')
 
     r2b = run.rule('R2b', 'copy() / with_*() return objects that share no container with the original', 8)
     for mod, name in COPIES:
